@@ -1,29 +1,11 @@
 ---------------------------- MODULE Eval_LangGraph ----------------------------
 (* C15: what a language graph must contain for a language, and the ill-formed   *)
 (* variants whose construction must be reported as an error.                     *)
-EXTENDS Langs, Json, TLC
+EXTENDS Langs, LangViews, Json, TLC
 VARIABLE k
 Init == k = 0
-Next == k < Len(Library) /\ k' = k + 1
+Next == k < 2 * Len(Library) /\ k' = k + 1
 Spec == Init /\ [][Next]_k
-AllFieldNames(L) == {L.assocs[i].lf : i \in DOMAIN L.assocs} \cup {L.assocs[i].rf : i \in DOMAIN L.assocs}
-LookupExp(L, f1, f2, T1, T2) ==
-  {i \in DOMAIN L.assocs :
-     \/ L.assocs[i].lf = f1 /\ L.assocs[i].rf = f2 /\ IsSub(L, T1, L.assocs[i].lt) /\ IsSub(L, T2, L.assocs[i].rt)
-     \/ L.assocs[i].lf = f2 /\ L.assocs[i].rf = f1 /\ IsSub(L, T2, L.assocs[i].lt) /\ IsSub(L, T1, L.assocs[i].rt)}
-\* static step-to-step links: from step s exposed by T to step t on the static target type of each reaches expression
-Links(L) == UNION { UNION { { [T |-> T, s |-> Fold(L, T)[i].name, U |-> ReachTargetType(L, Fold(L, T)[i].reaches.exprs[j], T),
-                               t |-> ReachStep(Fold(L, T)[i].reaches.exprs[j])] : j \in DOMAIN Fold(L, T)[i].reaches.exprs }
-                            : i \in DOMAIN Fold(L, T) } : T \in AssetNames(L) }
-Expected(L) ==
-  [ assets |-> { [name |-> T, super |-> SuperOf(L, T), subs |-> {U \in AssetNames(L) : SuperOf(L, U) = T},
-                  allsubs |-> Subs(L, T), allsupers |-> Anc(L, T),
-                  assocs |-> {i \in DOMAIN L.assocs : IsSub(L, T, L.assocs[i].lt) \/ IsSub(L, T, L.assocs[i].rt)},
-                  steps |-> StepNames(L, T)] : T \in AssetNames(L) },
-    issub |-> { <<T, U>> \in AssetNames(L) \X AssetNames(L) : IsSub(L, T, U) },
-    lookups |-> { [f1 |-> f1, f2 |-> f2, T1 |-> T1, T2 |-> T2, idx |-> LookupExp(L, f1, f2, T1, T2)] :
-                    f1 \in AllFieldNames(L), f2 \in AllFieldNames(L), T1 \in AssetNames(L), T2 \in AssetNames(L) },
-    links |-> Links(L) ]
 \* ill-formed variants (each must be rejected with an error)
 Broken(L) ==
   << [why |-> "unknown super asset", lang |-> [L EXCEPT !.assets[Len(L.assets)].super = "Nope"]],
@@ -31,7 +13,12 @@ Broken(L) ==
      [why |-> "unknown right association end", lang |-> [L EXCEPT !.assocs[Len(L.assocs)].rt = "Nope"]],
      [why |-> "unknown step target", lang |-> [L EXCEPT !.assets[1].steps = Append(@, Or("zzbroken", Ovr(<< St("nosuchstep") >>)))]],
      [why |-> "unknown field", lang |-> [L EXCEPT !.assets[1].steps = Append(@, Or("zzbroken", Ovr(<< Col(F("nosuchfield"), St("x")) >>)))]] >>
-Emit == k > 0 => PrintT(ToJson([name |-> LibraryNames[k], lang |-> Library[k], exp |-> Expected(Library[k]),
-                                broken |-> Broken(Library[k])]))
-BrokenIllFormed == k > 0 => \A b \in Range(Broken(Library[k])) : ~WellFormed(b.lang)
+\* every library language also with its assets declared in reverse order (sub-assets before their super-assets)
+Rev(s) == [i \in DOMAIN s |-> s[Len(s) + 1 - i]]
+LangAt(j) == IF j <= Len(Library) THEN Library[j] ELSE [Library[j - Len(Library)] EXCEPT !.assets = Rev(@)]
+OrigAt(j) == IF j <= Len(Library) THEN Library[j] ELSE Library[j - Len(Library)]
+NameAt(j) == IF j <= Len(Library) THEN LibraryNames[j] ELSE LibraryNames[j - Len(Library)] \o "_reversed"
+Emit == k > 0 => PrintT(ToJson([name |-> NameAt(k), lang |-> LangAt(k), exp |-> Expected(LangAt(k)),
+                                broken |-> Broken(OrigAt(k))]))
+BrokenIllFormed == k > 0 => (WellFormed(LangAt(k)) /\ \A b \in Range(Broken(OrigAt(k))) : ~WellFormed(b.lang))
 =============================================================================
